@@ -40,7 +40,9 @@ TDProduce(e) ==
 
 TDQuery(e) ==
   /\ Req("C07", "inexact" \notin DOMAIN e)
+  /\ (IF "dirty" \in DOMAIN e THEN Req("C10", e.dirty = << >>) ELSE TRUE)
   /\ CASE e.ev = "eval" -> Req("C07", e.val = (e.a[2] \in den[e.a[1]]))
+       [] e.ev = "count" -> Req("C10", e.val = Cardinality(Reach(node, root[e.a[1]])))          \* structure only
        [] e.ev = "wmc" -> Req("C07",
             /\ Normalised(e.sr, e.p, e.w, WX(e.wexp, nv), nv)
             /\ e.val = Comps(WMC(e.sr, e.p, den[e.a[1]], e.w, WX(e.wexp, nv), nv), nv * e.wexp)
